@@ -327,6 +327,28 @@ func runC20(c *Ctx) {
 					c.ok("R-UNSAFE-BOUNDS", key, pos, "word "+ksym(w)+" of the len>>3 whole words: 0 ≤ 8w and 8w + 8 ≤ 8·(len>>3) ≤ len")
 					return
 				}
+				// the counter runs to a word count that is rounded UP ((len+k)>>3): the last word reaches past the end
+				roundedUp := func(v ssa.Value) bool {
+					bo, ok := v.(*ssa.BinOp)
+					if !ok || !((bo.Op == token.SHR && isConstInt(bo.Y, 3)) || (bo.Op == token.QUO && isConstInt(bo.Y, 8))) {
+						return false
+					}
+					add, ok := bo.X.(*ssa.BinOp)
+					if !ok || add.Op != token.ADD {
+						return false
+					}
+					k, isK := constInt(add.Y)
+					ln, isLen := isBuiltinCall(add.X, "len")
+					return isK && k > 0 && isLen && ln.Call.Args[0] == dataV
+				}
+				for _, e := range wp.Edges {
+					for _, r := range referrersOf(e) {
+						if cmp, ok := r.(*ssa.BinOp); ok && cmp.Op == token.LSS && cmp.X == e && roundedUp(cmp.Y) {
+							c.bad("R-UNSAFE-BOUNDS", key, pos, "the word counter "+ksym(w)+" runs up to a word count that is rounded up ("+ksym(cmp.Y)+"): when the length is not a multiple of 8 the last 8-byte access at 8·w reaches past the end of the slice")
+							return
+						}
+					}
+				}
 			}
 		}
 		ph, ok := idx.(*ssa.Phi)
